@@ -337,14 +337,19 @@ class Exec:
         lo = sl.lower.value if isinstance(sl.lower, ast.Constant) else None if sl.lower is None else NotImplemented
         hi = sl.upper.value if isinstance(sl.upper, ast.Constant) else None if sl.upper is None else NotImplemented
         if lo is NotImplemented or hi is NotImplemented or sl.step is not None:
-            # symbolic lower bound: only string suffix s[n:]
-            if hi is None and sl.step is None:
-                outs = []
-                for s1, l in self.ev(sl.lower, st):
-                    lz = as_kind(l, INT, s1); s = self.as_str(s1, c)
-                    outs.append((s1, ZV('str', z3.SubString(s, lz, Length(s) - lz))))
-                return outs
-            raise Unsupported('general slice')
+            # symbolic bounds: string slices s[a:], s[:b], s[a:b] with 0 <= a <= b <= len(s) (obligation at the slice)
+            if sl.step is not None: raise Unsupported('slice with a step')
+            outs = []
+            bounds = [b for b in (sl.lower, sl.upper) if b is not None]
+            for s1, vals in self.evs(bounds, st):
+                if isinstance(vals, Raise): outs.append((s1, vals)); continue
+                vals = list(vals)
+                sz = self.as_str(s1, c)
+                lz = as_kind(vals.pop(0), INT, s1) if sl.lower is not None else IntVal(0)
+                hz = as_kind(vals.pop(0), INT, s1) if sl.upper is not None else Length(sz)
+                self.oblige(f'slice@L{getattr(sl, "lineno", "?")}:bounds_within_the_string', s1, And(0 <= lz, lz <= hz, hz <= Length(sz)), kind='pre')
+                outs.append((s1, ZV('str', z3.SubString(sz, lz, hz - lz))))
+            return outs
         if isinstance(c, PConst) and isinstance(c.obj, (str, tuple)): return [(st, PConst(c.obj[lo:hi]))]
         if isinstance(c, PTuple): return [(st, PTuple(c.items[lo:hi], c.is_list))]
         if (isinstance(c, ZV) and c.kind in ('str', 'val')):
